@@ -16,7 +16,8 @@ RULE = (
     "x <=1 deviation over (texture, volumes, n_grains, parameter set); ALL update sequences to depth 2 "
     "with a lock-step twin = the same mineral run single-phase with M* replaced by phi_own.M*; "
     "(b) twin = assemblage and fraction lists permuted together; (c) pydrex.update_all with the "
-    "mineral list in every order (2 and 3 minerals), every mineral and the returned F compared; "
+    "mineral list in every order (2 and 3 minerals; dislocation and diffusion regimes), every mineral and the returned F compared, "
+    "and against every mineral updated on its own from the same starting F at rtol 1e-10 (bound 1e-6); "
     "(d) ALL interleavings of the per-mineral update sequences of 2 minerals (6) and 3 minerals (90), "
     "2 updates each, against sequential execution: bit-identical per mineral, including minerals "
     "that were handed the SAME initial array objects; (e) two minerals built and driven identically "
@@ -60,6 +61,7 @@ def gen_cases(tier, seed):
         for nm in (2, 3):
             for flp in range(4):
                 keys.append(dict(part="bulk", frac=fi, nmin=nm, flows=flp))
+                keys.append(dict(part="bulk", frac=fi, nmin=nm, flows=flp, reg="diff"))
                 keys.append(dict(part="interleave", frac=fi, nmin=nm, flows=flp, alias=0))
                 keys.append(dict(part="interleave", frac=fi, nmin=nm, flows=flp, alias=1))
     # one params dictionary object shared by all updates and modified in place between them
@@ -261,12 +263,13 @@ FLOW_PAIRS = [("gen", "ss_xz"), ("time", "pos"), ("ps_xy", "gentr"), ("pos", "ge
 def make_minerals(key, alias=False):
     """2 or 3 minerals: olivine A, enstatite, (olivine B as a second olivine-phase mineral)."""
     specs = [("olA", "random"), ("enAB", "cluster"), ("olB", "girdle")][: key["nmin"]]
+    reg = key.get("reg", "disl")
     n = 5
     shared_A = alph.texture("random", n)
     shared_f = alph.volumes("geometric", n)
     out = []
     for fab, tex in specs:
-        k = dict(fab=fab, reg="disl", tex=tex, vol="geometric", ng=n, prm="default")
+        k = dict(fab=fab, reg=reg, tex=tex, vol="geometric", ng=n, prm="default")
         if alias:
             ph, fb = alph.FABRICS[fab]
             out.append(H.pd().Mineral(phase=ph, fabric=fb, regime=4, n_grains=n, fractions_init=shared_f, orientations_init=shared_A))
@@ -317,6 +320,35 @@ def run_bulk(key):
         if not dev <= bound:
             H.V(res, key, "mineral_order", {"dev": dev, "bound": bound}, perm="".join(map(str, perm)))
         res["nontrivial"].append(digest(key, perm))
+    # the bulk update against every mineral updated on its own from the SAME starting F
+    # ("common starting F"), at tight solver tolerances (rtol 1e-10, atol 1e-12) so that the
+    # comparison resolves what a looser bound would absorb (seed C08e: F chained through the
+    # mineral list changes the second mineral by ~1e-4 in the dislocation regimes)
+    tight = dict(rtol=1e-10, atol=1e-12)
+    for perm in list(itertools.permutations(range(key["nmin"])))[:2]:
+        ms = make_minerals(key)
+        order = [ms[i] for i in perm]
+        alone = make_minerals(key)
+        F, t = H.f0("generic"), 0.0
+        Fa = [H.f0("generic") for _ in alone]
+        for j, fl in enumerate(fls):
+            res["n"] += 1 + len(alone)
+            res["trans"] += 1
+            with H.time_limit():
+                Fn = pd.update_all(order, prm, F, fl.L, (t, t + 0.4, fl.x), **tight)
+            for i, m in enumerate(alone):
+                Fa[i] = H.update(m, prm, F, fl, t, t + 0.4, **tight)
+            res["clauses"]["bulk_equals_standalone"] = res["clauses"].get("bulk_equals_standalone", 0) + 1
+            dA = max(float(np.abs(a.orientations[-1] - b.orientations[-1]).max()) for a, b in zip(ms, alone))
+            df = max(float(np.abs(a.fractions[-1] - b.fractions[-1]).max()) for a, b in zip(ms, alone))
+            dF = min(float(np.abs(np.asarray(Fn) - x).max()) for x in Fa)
+            res["notes"]["max_bulk_vs_standalone_dev"] = max(res["notes"].get("max_bulk_vs_standalone_dev", 0.0), dA, df, dF)
+            if not max(dA, df, dF) <= 1e-6:
+                H.V(res, key, "bulk_equals_standalone", {"orientation_dev": dA, "fraction_dev": df, "F_dev": dF, "bound": 1e-6}, perm="".join(map(str, perm)), update=j)
+                break
+            F = np.asarray(Fn)
+            t += 0.4
+        res["states"] += 1
     res["outcomes"].append(digest(*[np.round(o, 9) for o in obs]))
     res["obs"] = digest(*obs)
     res["sample"] = {"case": key}
